@@ -266,6 +266,8 @@ def ob_union(pm: int, ki: int, with_default: bool) -> bool:
             ok = ok and sorted(got) == sorted(mine)
             for sk, v in mine.items():
                 ok = ok and st.get_bytes(sk) == v[0]
+                # reading through the composite (which re-labels 'key') must not have changed what the part itself reports
+                ok = ok and st.get_metadata(sk)["key"] == sk and st.get_metadata(sk).get("tag") == v[1]
                 rk = st.to_root_key(sk)
                 ok = ok and root.get_bytes(rk) == v[0]
     return check(ok)
